@@ -441,8 +441,12 @@ pub fn i128_shifted_div_mod_floor(
             r = y - r;
         }
     } else if y.is_negative() {
-        q = q.neg() - 1;
-        r -= y;
+        if r == 0 {
+            q = q.neg();
+        } else {
+            q = q.neg() - 1;
+            r += y;
+        }
     }
     Some((q, r))
 }
